@@ -640,7 +640,7 @@ func NewMemory(
 		cacheTrackedIdxs: mach.Index(c.TrackedStates),
 		cacheDbIdxs:      make(map[string]uint),
 	}
-	mem.BaseMemory = amhist.NewBaseMemory(ctx, mach, cfg.BaseConfig, mem)
+	mem.BaseMemory = amhist.NewBaseMemory(ctx, mach, c.BaseConfig, mem)
 	mem.savePool.SetLimit(c.SavePool)
 	tr := &tracer{
 		mem: mem,
